@@ -133,10 +133,30 @@ def probe_parent(parent_factory, rows, attrs, foreign, rnd, positional=None):
     return probes
 
 
+def _noise(v):
+    """before anything of version v is addressed, complex components of ANOTHER version are written through their fields
+    (once per datatype): whatever the library remembers from that must not change what a name designates in v"""
+    from hl7apy.core import Field
+    done = set()
+    for o in ("2.5" if v >= "2.7" else "2.7", "2.3.1" if v != "2.3.1" else "2.4"):
+        for seg in T.seg_names(o):
+            for r in (T.seg_rows(o, seg) or []):
+                if r["kind"] != "complex" or r["max"] == 0 or (o, r["dt"]) in done or seg == "MSH":
+                    continue
+                done.add((o, r["dt"]))
+                for c in (T.dt_rows(o, r["dt"]) or []):
+                    if c["kind"] == "complex":
+                        try:
+                            setattr(Field(r["name"], version=o), c["name"].lower(), "a&b")
+                        except Exception:
+                            pass
+
+
 def _version_chunk(args):
     import_hl7apy()
     from hl7apy.core import Segment, Field, Component
     v, segs, dts, seed = args
+    _noise(v)
     rnd = random.Random("%s-%s" % (seed, v))
     events = []
     allsegs = T.seg_names(v)
@@ -237,6 +257,17 @@ def _version_chunk(args):
                                "rows": [[a, b or ""] for a, b in srows], "attrs": attrs, "probes": probes})
             except Exception as ex:
                 events.append({"harness_error": repr(ex), "where": "%s %s" % (v, c["name"])})
+            # the same component when it arrives by a text assigned through its field (another way of creating it)
+            try:
+                def via_field(fname=fname, cname=c["name"].lower()):
+                    f = Field(fname, version=v)
+                    setattr(f, cname, "")
+                    return getattr(f, cname)[0]
+                probes = probe_parent(via_field, srows, attrs, foreign, rnd)
+                events.append({"kind": "component", "v": v, "parent": "%s(%s) assigned through %s" % (c["name"], c["dt"], fname),
+                               "rows": [[a, b or ""] for a, b in srows], "attrs": attrs, "probes": probes})
+            except Exception as ex:
+                events.append({"harness_error": repr(ex), "where": "%s %s via %s" % (v, c["name"], fname)})
             # positional path from the field down to the subcomponent: <field>_<j>_<k>
             try:
                 pr = []
@@ -297,7 +328,7 @@ def run(ctx):
         for k in range(2):
             jobs.append((v, segs[k::2], dts[k::2], ctx.seed))
     events = []
-    for part in pmap(_version_chunk, jobs):
+    for part in pmap(_version_chunk, jobs, fresh=True):
         for e in part:
             if "harness_error" in e:
                 ctx.machinery_failure("harness: %s at %s" % (e["harness_error"], e["where"]))
